@@ -116,7 +116,7 @@ def one_case(ctx, k):
     os.makedirs(d, exist_ok=True)
     try:
         demux = rng.choice([None, None, None, None, "normal", "combinatorial"]) if ctx.tier == "thorough" or k % 3 == 0 else None
-        sc = F.observe(ctx, rng, d, dict(demux=demux, trace=False, paired_p=1.0, interleaved_p=0.25, mixed_layout_p=0.25, revcomp_p=0.15, unknown_name_p=0.12 if demux else 0.0))
+        sc = F.observe(ctx, rng, d, dict(demux=demux, trace=False, paired_p=1.0, interleaved_p=0.25, mixed_layout_p=0.25, revcomp_p=0.15, unknown_name_p=0.12 if demux else 0.0, pair_adapters_lowercase_p=0.35))
         if sc is None:
             return
         sc.case["k"] = k
